@@ -1,7 +1,78 @@
-// Extension point of the native harness: kernels that need crate-private access (built-ins, instructions).
+// Extension of the native harness: kernels reached through interpreter instructions (crate-private access).
 #![allow(unused)]
+use crate::context::Ctx;
+use crate::function::Function;
+use crate::instruction::implementations as imp;
+use crate::stack::Stack;
 use crate::variables::Primitive as P;
+use std::borrow::Cow;
+use std::cell::RefCell;
+use std::rc::{Rc, Weak};
+
+fn show(p: &P) -> String {
+    super::show(p)
+}
+
+/// run one interpreter instruction on a fresh Ctx whose operand stack holds `args` (first pushed first)
+fn run_instr(name: &str, iargs: &[&str], args: &[P]) -> String {
+    let function = Function::new(Weak::new(), "verif".to_string(), Box::new([]));
+    let stack = Rc::new(RefCell::new(Stack::new()));
+    let mut ctx = Ctx::new(&function, stack, Cow::Owned(vec![]), None);
+    for a in args {
+        ctx.push(a.clone());
+    }
+    let iargs: Vec<String> = iargs.iter().map(|s| s.to_string()).collect();
+    let r = match name {
+        "bin_op" => imp::bin_op(&mut ctx, &iargs),
+        "equ" => imp::equ(&mut ctx, &iargs),
+        "neq" => imp::neq(&mut ctx, &iargs),
+        "neg" => imp::neg(&mut ctx, &iargs),
+        "not" => imp::not(&mut ctx, &iargs),
+        "unwrap" => imp::unwrap(&mut ctx, &iargs),
+        "jmp_not_nil" => imp::jmp_not_nil(&mut ctx, &iargs),
+        _ => panic!("instr {name}"),
+    };
+    let out = match r {
+        Err(_) => "ERR".to_string(),
+        Ok(()) => {
+            if ctx.stack_size() != 1 {
+                format!("OK Other stack{}", ctx.stack_size())
+            } else {
+                show(ctx.get_last_op_item().unwrap())
+            }
+        }
+    };
+    std::mem::forget(ctx);
+    out
+}
 
 pub fn eval_ext(op: &str, args: &[P]) -> String {
+    if let Some(sym) = op.strip_prefix("I:") {
+        return match sym {
+            "equals" => run_instr("equ", &[], args),
+            "nequals" => run_instr("neq", &[], args),
+            "negate" => run_instr("neg", &[], args),
+            "not" => run_instr("not", &[], args),
+            "add" => run_instr("bin_op", &["+"], args),
+            "sub" => run_instr("bin_op", &["-"], args),
+            "mul" => run_instr("bin_op", &["*"], args),
+            "div" => run_instr("bin_op", &["/"], args),
+            "rem" => run_instr("bin_op", &["%"], args),
+            "bitand" => run_instr("bin_op", &["&"], args),
+            "bitor" => run_instr("bin_op", &["|"], args),
+            "bitxor" => run_instr("bin_op", &["xor"], args),
+            "shl" => run_instr("bin_op", &["<<"], args),
+            "shr" => run_instr("bin_op", &[">>"], args),
+            "lt" => run_instr("bin_op", &["<"], args),
+            "le" => run_instr("bin_op", &["<="], args),
+            "gt" => run_instr("bin_op", &[">"], args),
+            "ge" => run_instr("bin_op", &[">="], args),
+            "eqsym" => run_instr("bin_op", &["="], args),
+            "and" => run_instr("bin_op", &["&&"], args),
+            "or" => run_instr("bin_op", &["||"], args),
+            "bxor" => run_instr("bin_op", &["^"], args),
+            _ => panic!("unknown instruction-level op {sym}"),
+        };
+    }
     panic!("unknown op {op}")
 }
